@@ -3,7 +3,7 @@ from __future__ import annotations
 
 from .. import core, schema_h, translate_schema
 from ..runner import Suite
-from ..schema_suites import FreshOrder, ModelCases, attr_name_members, gen, lossless, py_conforms
+from ..schema_suites import Constructors, FreshOrder, ModelCases, attr_name_members, gen, lossless, py_conforms
 
 MANIFEST = dict(
     text="Lean 4 theorems about the executable model of validate + model_dump(by_alias, exclude_none) over the regenerated field tables of every McpPydanticBase subclass: for every conforming wire value (any depth, any size) every member of the input is preserved exactly under its wire name, unknown members included, and every added member is a declared default; plus a decide-checked table theorem over every .model_dump( / .model_dump_json( call found in src/ by the AST translator: a call whose result can reach the wire and whose receiver class reaches an aliased field passes by_alias=True. Correspondence on both backends and the Lean model, and a dynamic cross-check that executes the library-side serialisers (elicitation request builder, tool_result_to_dict, content_to_dict, roots / sampling / completion / initialize builders) with every alias populated.",
@@ -57,6 +57,23 @@ def lossless_oracle(case, o):
             if "dump" not in b:
                 continue
             r = lossless(S, t, case["wire"], b["dump"])
+            if r is None:
+                # REUSE / other wire forms of the same view: the JSON text form, model_dump_mcp, a second
+                # dump, a second validation of the same dict, validation of the instance itself — each
+                # must be the same lossless value; validation must leave the caller's dict untouched
+                forms = {k: (b.get("variants") or {}).get(k) for k in ("json", "mcp", "again") if k in (b.get("variants") or {})}
+                for k in ("second", "from_instance"):
+                    if k in b:
+                        forms[k] = b[k]
+                for k, v in sorted(forms.items()):
+                    if not schema_h.same(v, b["dump"]):
+                        r = lossless(S, t, case["wire"], v) or ("wire-form-not-repeatable", f"form '{k}' is {str(v)[:120]}")
+                        r = (r[0], f"[{k}] {r[1]}")
+                        break
+                if r is None and b.get("input_intact") is False:
+                    r = ("input-modified", "validation changed the caller's dict")
+                if r is None and b.get("reuse_error"):
+                    r = ("valid-object-rejected", f"the same object is rejected when validated a second time ({b['reuse_error']})")
             if r is not None:
                 key, what = r
                 if attr_name_members(case) == "both":
@@ -235,5 +252,32 @@ def extra(ctx, tier):
             ctx.notes.append(f"dump site {s['file']}:{s['line']} {s['func']} ({s['recv']}; {res}; by_alias={s['byAlias']}): {tag}")
 
 
+class Ctors(Constructors):
+    """an object built by the library's own constructors dumps to a wire object of which the typed
+    view is again lossless (validate(dump).dump == dump), in every wire form"""
+
+    def oracle(self, case, o):
+        if case.get("returns"):
+            wire = next(iter(case["kwargs"].values()))
+            return lossless_oracle({"cls": case["returns"], "wire": wire}, o)
+        for side in ("pydantic", "fallback"):
+            b = o[side]
+            if not b.get("ok") or "dump" not in b or "roundtrip" not in b:
+                continue
+            forms = {"roundtrip": b["roundtrip"]}
+            for k in ("json", "mcp", "again"):
+                if k in (b.get("variants") or {}):
+                    forms[k] = b["variants"][k]
+            for k, v in sorted(forms.items()):
+                if not schema_h.same(v, b["dump"]):
+                    from ..schema_suites import first_diff
+
+                    d = first_diff(b["dump"], v) or ("$", b["dump"], v)
+                    return ("constructed-object-not-lossless",
+                            f"{case['qual']} under the {side} backend: form '{k}' differs from the dump at {d[0]}: {d[1]!r} vs {d[2]!r}"[:300],
+                            {"dump": b["dump"]})
+        return None
+
+
 def suites():
-    return [Lossless(), DumpSites(), Order()]
+    return [Lossless(), DumpSites(), Order(), Ctors()]
